@@ -565,6 +565,17 @@ class SNum:
     def __format__(self, spec):
         return "<sym>"
 
+    def __round__(self, ndigits=None):
+        """Python's round(): round-half-to-even to an integer (or to ndigits decimals)."""
+        scale = 1 if ndigits is None else 10 ** ndigits
+        x = self.e * scale
+        f = z3.ToInt(x)
+        d = x - z3.ToReal(f)
+        r = z3.If(d < z3.RealVal("1/2"), f, z3.If(d > z3.RealVal("1/2"), f + 1, z3.If(f % 2 == 0, f, f + 1)))
+        if ndigits is None:
+            return SNum(z3.ToReal(r), True)
+        return SNum(z3.ToReal(r) / scale)
+
     def __float__(self):
         ctx().set_poison("float(SNum) outside a shadowed module")
         raise TypeError("float() of a symbolic value (unmodelled)")
@@ -591,6 +602,21 @@ def sym_float(x):
     if isinstance(x, SNum):
         return SNum(x.e, False)
     return float(x)
+
+
+def install_shadows():
+    """Shadow the module-level names int / float of the /repo modules that convert clock or period values, so
+    that proxies pass through them (no source edit; idempotent)."""
+    import importlib
+
+    for name in ("robotpy_ext.control.toggle", "robotpy_ext.control.button_debouncer", "robotpy_ext.misc.simple_watchdog",
+                 "robotpy_ext.misc.precise_delay", "robotpy_ext.misc.periodic_filter"):
+        try:
+            m = importlib.import_module(name)
+        except Exception:
+            continue
+        m.int = sym_int
+        m.float = sym_float
 
 
 class SBV:
@@ -798,6 +824,15 @@ def s_div(a, b):
     if isinstance(a, SNum) or isinstance(b, SNum):
         return SNum(lift(a) / lift(b))
     return a / b if b != 0 else 0.0
+
+
+def s_close_rel(a, b, rel=1e-9):
+    """|a-b| <= rel*|b| : purely relative tolerance (no absolute floor), for linear scalings of any magnitude."""
+    if isinstance(a, SNum) or isinstance(b, SNum):
+        ea, eb = lift(a), lift(b)
+        tol = lift(rel) * z3.If(eb >= 0, eb, -eb)
+        return SBool(z3.And(ea - eb <= tol, eb - ea <= tol))
+    return abs(a - b) <= rel * abs(b)
 
 
 def is_sym(x):
